@@ -95,6 +95,33 @@ Proof.
 Qed.
 Print Assumptions C02_utils_py_parallelize_is_ordered_map.
 
+(* ---- two ties composed: the translated accumulate (moments tie, gen/MomentsGen.v) inside the pinned SFS assembly (sfs tie, gen/SfsGen.v).
+   On ANY piecewise-constant demography and at any end time the matrix route sfs.cov[a, b] and the scalar route sfs.get_cov(a, b) are the
+   same real number for all bins 1 <= a, b <= n - 1, and the diagonal of sfs.cov is the variance spectrum sfs.var ---- *)
+From Coq Require Import Reals.
+From PG Require Import model.Matrix model.PhaseType proofs.SourceSfsRoutes.
+Theorem C02_source_cov_matrix_entry_is_get_cov :
+  forall (expm : mat (T:=R) -> mat (T:=R)) (Ss : list (QArith_base.Q * mat (T:=R))) (Slast : mat (T:=R)) (alpha : vec (T:=R)) (lam : R)
+         (dist_reward : vec (T:=R)) (combined : vec (T:=R) -> nat -> vec (T:=R)) (self_reward : vec (T:=R)) (t : QArith_base.Q) (n a b : nat),
+    (1 <= a)%nat -> (a < n)%nat -> (1 <= b)%nat -> (b < n)%nat ->
+    let pm := pmoment_src expm Ss Slast alpha lam dist_reward t in
+    let indices := UnfoldedSFSDistribution_get_indices n in
+    let mean := SFSDistribution_moment OpsR _ combined pm self_reward n indices 1 None true true in
+    mget OpsR (SFSDistribution_cov OpsR _ combined pm self_reward n indices mean) a b = SFSDistribution_get_cov OpsR _ combined pm self_reward n a b.
+Proof. intros expm Ss Slast alpha lam dist_reward combined self_reward t n a b. apply source_sfs_cov_matrix_entry_is_get_cov. Qed.
+Theorem C02_source_cov_diagonal_is_var :
+  forall (expm : mat (T:=R) -> mat (T:=R)) (Ss : list (QArith_base.Q * mat (T:=R))) (Slast : mat (T:=R)) (alpha : vec (T:=R)) (lam : R)
+         (dist_reward : vec (T:=R)) (combined : vec (T:=R) -> nat -> vec (T:=R)) (self_reward : vec (T:=R)) (t : QArith_base.Q) (n a : nat),
+    (1 <= a)%nat -> (a < n)%nat ->
+    let pm := pmoment_src expm Ss Slast alpha lam dist_reward t in
+    let indices := UnfoldedSFSDistribution_get_indices n in
+    let mean := SFSDistribution_moment OpsR _ combined pm self_reward n indices 1 None true true in
+    mget OpsR (SFSDistribution_cov OpsR _ combined pm self_reward n indices mean) a a
+    = nth a (SFSDistribution_moment OpsR _ combined pm self_reward n indices 2 None true true) 0%R.
+Proof. intros expm Ss Slast alpha lam dist_reward combined self_reward t n a. apply source_sfs_cov_diagonal_is_var. Qed.
+Print Assumptions C02_source_cov_matrix_entry_is_get_cov.
+Print Assumptions C02_source_cov_diagonal_is_var.
+
 From mathcomp Require Import all_ssreflect all_algebra.
 From PG Require Import proofs.ExpLaws.
 Set Implicit Arguments. Unset Strict Implicit. Unset Printing Implicit Defensive.
